@@ -108,8 +108,8 @@ var errDropExceptions = map[string]string{
 	"RemoteHTTPIndex.StoreIndex$|Index).WriteTo": "pipe-feeding goroutine: a failed encode closes the pipe early and surfaces as a short upload",
 	"S3IndexStore.StoreIndex$|Index).WriteTo":    "pipe-feeding goroutine: a failed encode surfaces as a short upload",
 	"SFTPIndexStore.StoreIndex$|Index).WriteTo":  "pipe-feeding goroutine: a failed encode surfaces as a short upload",
-	"GCIndexStore.StoreIndex|Index).WriteTo":        "the writer's Close error reports the failed upload",
-	"cmd.runInfo|).HasChunk":                        "reporting command: an unreachable cache counts as 'not cached'; no property anchors it",
+	"GCIndexStore.StoreIndex|Index).WriteTo":     "the writer's Close error reports the failed upload",
+	"cmd.runInfo|).HasChunk":                     "reporting command: an unreachable cache counts as 'not cached'; no property anchors it",
 }
 
 // errorsNotDropped: every call of the property's callee families has its error result looked at
